@@ -427,6 +427,11 @@ def edwards_encodings(rng, n):
     for y in (0, 1, 2, P - 1, P, P + 1, P + 18, 2**255 - 1, 2**255 - 19, 2**255 - 20):
         for s in (0, 1):
             out.append(('y-corner', to32((y & M255) | (s << 255))))
+    # one-bit neighbours of the distinguished encodings (a decoder shortcut that recognises 0, 1, -1, p, the basepoint
+    # or a torsion encoding has to look at all 256 bits); sampled, the distinguished values themselves are above
+    special = [0, 1, P - 1, P, P + 1, 2**255 - 1, ref.B[1], ref.B[1] | (1 << 255)] + [t[1] for t in ref.TORSION[1:4]]
+    for _ in range(max(16, n // 6)):
+        out.append(('bit-neighbour', to32(rng.choice(special) ^ (1 << rng.randrange(256)))))
     while len(out) < n:
         r = rng.random()
         if r < 0.4:
@@ -471,10 +476,14 @@ def ristretto_encodings(rng, n):
             a = rng.randrange(L)
             enc = le(ref.ristretto_encode(Pt(a, 0).affine()))
             out.append(('negative-s', to32((P - enc) % P)))
-        elif r < 0.9:
+        elif r < 0.85:
             # random even s < p: mix of non-square / negative t / valid
             s = rng.randrange(P) & ~1
             out.append(('random-even', to32(s)))
+        elif r < 0.93:
+            # one-bit neighbours of the distinguished encodings (identity 0, 1, p-1, p, the basepoint's encoding)
+            base = rng.choice([0, 1, P - 1, P, le(ref.ristretto_encode(ref.B))])
+            out.append(('bit-neighbour', to32(base ^ (1 << rng.randrange(256)))))
         else:
             out.append(('random', rb(rng, 32)))
     return out
